@@ -125,6 +125,9 @@ func main() {
 	rcpts := []sdk.Address{w.Accts[0].Addr, w.Accts[2].Addr, owners[0].Addr, owners[1].Addr, w.Fresh[1].Addr, w.Fresh[2].Addr,
 		ak.GetModuleAddress(govTypes.DAOAccountName), ak.GetModuleAddress(authTypes.FeeCollectorName), w.Vals[1].Addr}
 	// (no key with an unknown subspace: for its ACL owner ModifyParam calls os.Exit)
+	// DAO transfer recipients of length != 20 (ValidateBasic only rejects a nil recipient)
+	rcpts = append(rcpts, append(append(sdk.Address{}, w.Accts[0].Addr...), 0x00), append(sdk.Address{}, w.Accts[2].Addr[:19]...),
+		append(append(sdk.Address{}, ak.GetModuleAddress(govTypes.DAOAccountName)...), 0x01), sdk.Address{0x01})
 	bogusKeys := []string{"pos/Bogus", "nokey", "pos/RelaysToTokensMultiplie", "pos/MaxValidator", "pos/MaxValidatorss", "gov/ACL", ""}
 	entropy := int64(1)
 	lines := 0
